@@ -401,6 +401,15 @@ func genSpec(r *sx.Rng) spec {
 	if r.Chance(1, 40) {
 		s.keys = sx.Pick(r, [][]string{{""}, {"", ""}, {"a", ""}})
 	}
+	if r.Chance(1, 25) {
+		// empty keys in front of a real one: the separator bytes count
+		s.keys = append(sx.Pick(r, [][]string{{""}, {"", ""}}), safeStr(r, 1+r.Intn(6)))
+	}
+	if r.Chance(1, 20) && len(s.items) > 0 {
+		// a key filter given with -F whose value holds the key separator byte, in front of other filters
+		kv := safeStr(r, 1+r.Intn(5)) + "\x01" + safeStr(r, 1+r.Intn(5))
+		s.items = append([]item{{field: "key", op: "=", text: kv, isStr: true}}, s.items...)
+	}
 	s.inDomain = true
 	return s
 }
